@@ -12,6 +12,13 @@ from .pathwalk import show, is_const, C, PathState
 
 INST, POS, ENV = ('sym', 'INST'), ('sym', 'POS'), ('sym', 'ENV')
 RAW_COMPARES = []
+UNGUARDED_EVALS = []      # (predicate, table): i.imm.eval(.., <table that is not the label environment>, ..) not under a handler for AssemblerError
+_GUARD = [0]
+
+
+def catches_assembler_error(v):
+    caught = v[3] if len(v) > 3 else ()
+    return any(c in ('*', 'Exception', 'BaseException') or 'AssemblerError' in c for c in caught)
 REG_FIELDS = ('rd', 'rs1', 'rs2', 'rd_rs1')
 
 
@@ -70,7 +77,11 @@ def to_formula(v, facts, fname):
     if k == 'orelse':
         # try: X  except: <constant>  -- where the evaluation of X fails the predicate is the constant
         if is_const(v[2]) and v[2][1] is False:
-            return to_formula(v[1], facts, fname)
+            _GUARD[0] += catches_assembler_error(v)
+            try:
+                return to_formula(v[1], facts, fname)
+            finally:
+                _GUARD[0] -= catches_assembler_error(v)
         raise AnalysisError('predicate {}: a failing evaluation makes the predicate {!r}'.format(fname, v[2][1]))
     if k == 'call' and v[1] == 'isinstance' and len(v[2]) == 2 and v[2][0] == ('attr', INST, 'imm') and v[2][1] == ('name', 'Arithmetic'):
         return ('cmp', '==', ('ISARITH',), ('const', True))
@@ -122,7 +133,11 @@ def cmp_formula(op, a, b, facts, fname):
                 return ('cmp', '==', ('UNDEF',), ('const', True))
             if fk != FALSE:
                 raise AnalysisError('predicate {}: a failing evaluation does not make the comparison false'.format(fname))
-            return cmp_formula(op, x[1], y, facts, fname) if left else cmp_formula(op, y, x[1], facts, fname)
+            _GUARD[0] += catches_assembler_error(x)
+            try:
+                return cmp_formula(op, x[1], y, facts, fname) if left else cmp_formula(op, y, x[1], facts, fname)
+            finally:
+                _GUARD[0] -= catches_assembler_error(x)
     if is_const(a) and is_const(b):
         va, vb = a[1], b[1]
         try:
@@ -158,11 +173,16 @@ def to_term(v, facts, fname):
     if v[0] == 'attr' and v[1] == i and v[2] in REG_FIELDS:
         RAW_COMPARES.append((fname, v[2]))
         return ('REG', v[2])
-    if v[0] == 'mcall' and v[2] == 'eval' and v[1] == ('attr', i, 'imm'):
+    if v[0] == 'mcall' and v[2] == 'eval' and v[1] in (('attr', i, 'imm'), ('attr', ('attr', i, 'imm'), 'expr')):
+        inner = v[1] != ('attr', i, 'imm')
         if len(v[3]) >= 2 and v[3][1][0] == 'name' and v[3][1][1] != 'labels' and v[3][1] != e:
-            # evaluated against a table that is not the label environment (the pass's constants): label-independent
-            return ('IMMC', v[3][1][1])
-        return ('IMM',)
+            # evaluated against a table that is not the label environment (the pass's constants): label-independent - and it
+            # fails (AssemblerError) for an expression that mentions a label
+            if not _GUARD[0]:
+                UNGUARDED_EVALS.append((fname, v[3][1][1]))
+            return ('IMMX', v[3][1][1]) if inner else ('IMMC', v[3][1][1])
+        # .expr of the operand: the expression inside a %hi / %lo wrapper, not the value the instruction carries
+        return ('IMMX', None) if inner else ('IMM',)
     if v[0] == 'call' and v[1] in facts.funcs and len(v[2]) >= 2 and v[2][0] == i and v[2][1] == p:
         # wrapper around i.imm.eval (judged by R-auipc); evaluated against the live environment or against another table
         if len(v[2]) >= 3 and v[2][2][0] == 'name' and v[2][2] != e and v[2][2][1] != 'labels':
